@@ -41,6 +41,62 @@ var skipMethods = map[string]bool{
 	"Zero":     true,
 }
 
+// mutators: one-argument methods that change the receiver; never invoked by the sweep.
+var mutators = map[string]bool{"SetBytes": true, "AddAddress": true, "Add": true, "WithPayload": true, "WithType": true}
+
+type poolArg struct {
+	label string
+	v     reflect.Value
+}
+
+// argPool returns boundary arguments for a parameter type (nil for unsupported types).
+func argPool(pt reflect.Type, recv reflect.Value) []poolArg {
+	var out []poolArg
+	switch pt.Kind() {
+	case reflect.Int, reflect.Int64, reflect.Int32:
+		for _, x := range []int64{-1, 0, 1, 2, 3, 15, 16, 17, 255, 1 << 31} {
+			v := reflect.New(pt).Elem()
+			v.SetInt(x)
+			out = append(out, poolArg{fmt.Sprint(x), v})
+		}
+	case reflect.Uint8, reflect.Uint16, reflect.Uint32:
+		for _, x := range []uint64{0, 1, 3, 5, 7, 255} {
+			v := reflect.New(pt).Elem()
+			v.SetUint(x)
+			out = append(out, poolArg{fmt.Sprint(x), v})
+		}
+	case reflect.String:
+		for _, x := range []string{"", "host", "caps", "port", "\x00", "s"} {
+			v := reflect.New(pt).Elem()
+			v.SetString(x)
+			out = append(out, poolArg{fmt.Sprintf("%q", x), v})
+		}
+	case reflect.Slice:
+		if pt.Elem().Kind() == reflect.Uint8 {
+			for _, x := range [][]byte{nil, {}, {4, 'h', 'o', 's', 't'}, {4, 'c', 'a', 'p', 's'}, {9, 'x'}, {0}, make([]byte, 32), make([]byte, 31)} {
+				v := reflect.New(pt).Elem()
+				if x != nil {
+					v.SetBytes(append([]byte{}, x...))
+				}
+				out = append(out, poolArg{fmt.Sprintf("%x", x), v})
+			}
+		}
+	case reflect.Ptr:
+		out = append(out, poolArg{"nil", reflect.Zero(pt)})
+		if recv.Type() == pt {
+			out = append(out, poolArg{"self", recv})
+		} else if recv.Kind() == reflect.Ptr && recv.Type().Elem() == pt.Elem() {
+			out = append(out, poolArg{"self", recv})
+		}
+	case reflect.Struct, reflect.Array:
+		if recv.Kind() == reflect.Ptr && recv.Type().Elem() == pt && !recv.IsNil() {
+			out = append(out, poolArg{"self", recv.Elem()})
+			out = append(out, poolArg{"zero", reflect.Zero(pt)})
+		}
+	}
+	return out
+}
+
 func isLibType(t reflect.Type) bool {
 	for t.Kind() == reflect.Ptr || t.Kind() == reflect.Slice || t.Kind() == reflect.Array {
 		t = t.Elem()
@@ -197,6 +253,10 @@ func firstLine(s string) string {
 // ObserveOpts controls the sweep.
 type ObserveOpts struct {
 	Depth int // how many levels of library-typed results to sweep as well (0 = only v)
+	// WithArgs also invokes exported methods that take exactly one argument of a simple type
+	// (int, uint8/16/32, string, I2PString, a pointer or value of the receiver's own type) with a
+	// small pool of boundary arguments.
+	WithArgs bool
 	// Before is called before each method invocation (event discipline); may be nil.
 	Before func(name string)
 }
@@ -218,6 +278,39 @@ func observe(rv reflect.Value, path string, opt ObserveOpts, depth int, out *[]O
 	tn := baseName(t)
 	for i := 0; i < t.NumMethod(); i++ {
 		m := t.Method(i)
+		if opt.WithArgs && m.Type.NumIn() == 2 && !m.Type.IsVariadic() && !skipMethods[m.Name] && !mutators[m.Name] {
+			for _, arg := range argPool(m.Type.In(1), rv) {
+				name := fmt.Sprintf("%s%s.%s(%s)", path, tn, m.Name, arg.label)
+				o := Obs{Name: name}
+				if opt.Before != nil {
+					opt.Before(name)
+				}
+				var results []reflect.Value
+				func() {
+					defer func() {
+						if r := recover(); r != nil {
+							o.Panicked, o.Panic, o.Stack = true, fmt.Sprint(r), string(debug.Stack())
+						}
+					}()
+					results = rv.Method(i).Call([]reflect.Value{arg.v})
+				}()
+				if !o.Panicked {
+					var sb strings.Builder
+					func() {
+						defer func() { recover() }()
+						for j, r := range results {
+							if j > 0 {
+								sb.WriteString(" | ")
+							}
+							render(&sb, r, 0, false)
+						}
+					}()
+					o.Result = sb.String()
+				}
+				*out = append(*out, o)
+			}
+			continue
+		}
 		if m.Type.NumIn() != 1 || m.Type.IsVariadic() {
 			continue
 		}
